@@ -85,11 +85,13 @@ Alter(p, mu) ==
                              THEN [p EXCEPT !.intact = FALSE, !.tag = mu.j, !.k = (nelem - mu.j - 5) \div 2] ELSE ErrP
     [] mu.kind = "bytes"  -> ErrP      \* trailing / missing bytes, an odd extra element: never decodable
 
+\* 2^k = n*m as the code checks it (a hostile round count may exceed any integer width: checked_shl)
+RoundsMatch(k, nm) == k <= 20 /\ Pow2(k) = nm
 \* ---- one member, ideally (C01, C05, C07, C12) --------------------------------------------------
 VBound(mb) == Bound(mb.v.n, mb.v.t, mb.m, mb.v.label, mb.v.pgH, mb.v.pgG, mb.v.commit, mb.v.cj, mb.v.proms)
 PromsFit(mb) == \A j \in 1..mb.m : mb.v.proms[j] = None \/ U64Fits(mb.v.proms[j], mb.v.n)
 MemberValid(mb, p) ==
-  /\ p # ErrP /\ p.intact /\ p.tag = mb.v.t /\ Pow2(p.k) = mb.v.n * mb.m
+  /\ p # ErrP /\ p.intact /\ p.tag = mb.v.t /\ RoundsMatch(p.k, mb.v.n * mb.m)
   /\ p.bound = VBound(mb) /\ PromsFit(mb) /\ mb.v.cap >= mb.m
 
 (***************************************************************************************************)
@@ -146,7 +148,7 @@ MaskOf(x) == IF sc.mode = "VerifyOnly" \/ Mb(x).v.seed = 0 THEN "none"
 
 \* structural refusals that happen in every mode (also RecoverOnly)
 Structural(x) == /\ ~proofs[x].idpoint /\ ~proofs[x].undec
-                 /\ Pow2(proofs[x].k) = Mb(x).v.n * Mb(x).m
+                 /\ RoundsMatch(proofs[x].k, Mb(x).v.n * Mb(x).m)
 
 \* one call of the inner `verify` on members lo..hi
 VChunk == /\ pc = "chunk"
